@@ -50,7 +50,8 @@ def _build_dp(f):
     import numpy as np
 
     return abtem.DiffractionPatterns(np.zeros(tuple(int(n) for n in f["shape"]), dtype=np.float32),
-                                     sampling=tuple(float(x) for x in f["_sampling"]), fftshift=True, metadata={"energy": _E0})
+                                     sampling=tuple(float(x) for x in f["_sampling"]), fftshift=bool(f.get("_fftshift", True)),
+                                     metadata={"energy": _E0})
 
 
 def _native_ufr(name, *args):
@@ -60,9 +61,9 @@ def _native_ufr(name, *args):
     return R(float(energy2wavelength(_E0)))
 
 
-def _gen_dp(rng):
+def _gen_dp(rng, shifted=True):
     return dict(self=dict(shape=[rng.randint(1, 12), rng.randint(1, 12)], _sampling=[rng.uniform(0.01, 0.3), rng.uniform(0.01, 0.3)],
-                          _fftshift=True, array=None, _get_from_metadata=None))
+                          _fftshift=shifted, array=None, _get_from_metadata=None))
 
 
 # assumed callee contract (the function itself is under contract in C24): the wavelength of the pattern's energy is a positive number
@@ -114,10 +115,23 @@ GEOMETRY = {
         cross_check=False,
     ),
 }
+# unshifted patterns (zero frequency at index 0): pixel j carries the signed frequency of numpy.fft.fftfreq — j below
+# ceil(n / 2), j - n from there on — times the angular sampling
+DPU = Obj(MM, "DiffractionPatterns", {**DP.fields, "_fftshift": Const(False)})
+GEOMETRY["DiffractionPatterns.angular_coordinates/unshifted"] = dict(
+    module=MM, qualname="DiffractionPatterns.angular_coordinates", params=dict(self=DPU), requires=_REQ,
+    pure_lemmas=GEOMETRY["DiffractionPatterns.angular_coordinates"]["pure_lemmas"] if False else [],
+    ensures=[("count", "len(result[0]) == self.shape[0] and len(result[1]) == self.shape[1]")] + [
+        (f"pixel-angle-unshifted-axis{a}",
+         f"forall(lambda j: result[{a}][j] == (j if j < (self.shape[{a}] + 1) // 2 else j - self.shape[{a}]) * self._sampling[{a}] * {_LAM} * 1e3, "
+         f"0, self.shape[{a}])") for a in (0, 1)],
+)
 for _s in GEOMETRY.values():
     _s.update(native_build={"self": _build_dp}, native_helpers={"ufr": _native_ufr}, native_gen=_gen_dp, cross_check=True)
 # angular_coordinates returns float32 arrays: the native comparison allows float32 rounding of values up to ~1e3 mrad
 GEOMETRY["DiffractionPatterns.angular_coordinates"]["native_tol"] = dict(rel=2e-6, abs=1e-4)
+GEOMETRY["DiffractionPatterns.angular_coordinates/unshifted"]["native_tol"] = dict(rel=2e-6, abs=1e-4)
+GEOMETRY["DiffractionPatterns.angular_coordinates/unshifted"]["native_gen"] = lambda rng: _gen_dp(rng, shifted=False)
 SPECS.update(GEOMETRY)
 
 
